@@ -833,3 +833,25 @@ spec("C03", plan=plan_c03,
           "end, only parse_error / std::overflow_error(buffer) leave parse(), bytes beyond the logical end never change result or "
           "consumption.  Non-trivial: a run in which a rule inspected or consumed the last available byte; distinct = (rule, input, class).",
      assumptions=COMMON_ASSUME + ["reads through in.current() (string<>, uintN, utf16/32 peeks) are visible to ASan only; reads through peek_char()/bump() additionally to the window hook"])
+
+# ---------------------------------------------------------------------------- C18
+
+
+def plan_c18(tier, seed, workdir, case):
+    t = Target("c18_limits", "targets/c18_limits.cpp", mode="rc", extra=("-O1",))
+    return [Run(t, nshards=1 if case else 16, timeout=3000)]
+
+
+spec("C18", plan=plan_c18,
+     rule="depth: six recursive shapes (bracket nesting, right recursion, recursion in a backtracked sor branch, inside at<>/not_at<>, with "
+          "must, limit error caught by try_catch_return_false followed by another guarded rule) x limits N in {1,2,3,5,8} x inputs of "
+          "nesting 0..N+3 (balanced, one bracket surplus/missing, trailers); oracle: the same grammar unguarded under a control that "
+          "measures the nesting the run needs - within the limit identical result and consumption, beyond it a parse_error with the "
+          "documented message; current_depth() == 0 after success, local failure and exception.  bytes: eight guarded rule kinds (greedy, "
+          "look-ahead, failing, throwing, literal longer than the limit, until, eof-sensitive, optional) under limit_bytes<N> and "
+          "check_bytes<N>, N in {0,1,2,3,5}, the guarded rule starting at every offset 0..6 (run-time '#' prefix), all strings to length "
+          "6/7 over a 7-letter alphabet plus rapidcheck strings; oracle: the same rule unguarded on the input truncated at start+N (reaching "
+          "exactly start+N may also give the documented limit error), never more than N bytes matched, the window hook never sees an "
+          "inspection beyond start+N, the input's end is the real end afterwards in every outcome.  Non-trivial: guarded rule starting at "
+          "offset > 0 with more than N bytes remaining; inputs deeper than the limit.",
+     assumptions=COMMON_ASSUME + ["unguarded PEGTL runs serve as reference for the guarded ones (the property is about the guard)"])
